@@ -130,3 +130,46 @@ def run(chk, F, tier):
                       % b.id.split("::")[-1], b.loc(line),
                       sample={"rule": "R19c", "site": key, "verdict": "only under get_code_list() == None"})
     chk.floor("DisableAll construction sites", nall, 1)
+    run_r19d(chk, F)
+
+
+def run_r19d(chk, F):
+    """R19d: the scope recorded for a block-scoped `---@diagnostic disable` is the range of the enclosing LuaBlock itself."""
+    chk.rule("R19d", "the range of a block-scoped disable action is the enclosing LuaBlock's own range (get_range()/syntax().text_range() of the "
+                     "block found by ancestors::<LuaBlock>()), never the range of a parent or sibling construct")
+    fid = "emmylua_code_analysis::compilation::analyzer::doc::diagnostic_tags::analyze_diagnostic_disable"
+    b = F.bodies.get(fid)
+    if b is None:
+        raise RuleBroken("analyze_diagnostic_disable not found")
+    BLOCK = "emmylua_parser::syntax::node::lua::LuaBlock"
+
+    def is_block_recv(c):
+        return bool(c["a"]) and BLOCK in b.ty_str_op(c["a"][0])
+
+    def root_ok(r):
+        if r[0] != "call":
+            return False
+        c = b.blocks[r[1]][2][1]
+        n = c.get("r") or c.get("f") or ""
+        if n.endswith("LuaAstNode::get_range") and is_block_recv(c):
+            return True
+        if n.endswith("::text_range") and c["a"]:
+            l = dataflow.operand_local(c["a"][0])
+            rs = dataflow.roots(b, l) if l is not None else set()
+            return bool(rs) and all(x[0] == "call" and (b.blocks[x[1]][2][1].get("r") or b.blocks[x[1]][2][1].get("f") or "").endswith("LuaAstNode::syntax")
+                                    and is_block_recv(b.blocks[x[1]][2][1]) for x in rs)
+        return False
+    n = 0
+    for bb, c in b.calls():
+        if not (c.get("r") or c.get("f") or "").endswith("DiagnosticAction::new") or not c["a"]:
+            continue
+        n += 1
+        l = dataflow.operand_local(c["a"][0])
+        rs = dataflow.roots(b, l) if l is not None else set()
+        bad = [r for r in rs if not root_ok(r)]
+        chk.check(bool(rs) and not bad, "R19d", "block-range@analyze_diagnostic_disable#%d" % n,
+                  "the range of the block-scoped disable action can come from something other than the enclosing block's own range (%s): the "
+                  "suppression then reaches code outside the block that contains the comment (for instance the other branches of an if)"
+                  % ("; ".join(sorted({(b.blocks[r[1]][2][1].get("r") or b.blocks[r[1]][2][1].get("f") or "?").split("::")[-1] if r[0] == "call" else r[0] for r in bad})) or "no source"),
+                  b.loc(c["l"]), sample={"rule": "R19d", "site": "analyze_diagnostic_disable#%d" % n, "verdict": "range of the enclosing LuaBlock"})
+    chk.floor("block-scoped disable actions", n, 2)
